@@ -73,6 +73,9 @@ func NewSchema(config SchemaConfig) (Schema, error) {
 	}
 	// Ensure directive definitions are error-free
 	for _, dir := range schema.directives {
+		if err = invariant(dir != nil, "Schema directives must not contain nil."); err != nil {
+			return schema, err
+		}
 		if dir.err != nil {
 			return schema, dir.err
 		}
@@ -98,6 +101,9 @@ func NewSchema(config SchemaConfig) (Schema, error) {
 	initialTypes = append(initialTypes, config.Types...)
 
 	for _, ttype := range initialTypes {
+		if err = invariant(ttype != nil, "Schema types must not contain nil."); err != nil {
+			return schema, err
+		}
 		if ttype.Error() != nil {
 			return schema, ttype.Error()
 		}
